@@ -141,6 +141,45 @@ func genXport(r *rng, seed uint64, focus, arm string) *plan.Plan {
 		xp.HorizonUs = ev + 30_000_000
 		return p
 	}
+	if focus == "C05" && arm == "clean" && r.p(0.08) {
+		// one reply is slow while a whole window's worth of further exchanges
+		// (64 on a pipelined stream, 4096 on a udp socket - the transports' limits
+		// of concurrent queries) passes through the same connection; exchanges
+		// whose wire ids differ from the slow one's by a multiple of the window
+		// are waiting when the slow reply arrives.  Whatever the transport keys
+		// its waiters by, that reply belongs to the slow exchange alone.
+		kind := []string{"tcp+pipeline", "tls+pipeline", "tcp+pipeline", "tls+pipeline", "tcp+pipeline", "tls+pipeline", "tcp+pipeline", "udp"}[r.intn(8)]
+		window := 64
+		slow := r.i64(250_000, 600_000)
+		if kind == "udp" {
+			window, slow = 4096, r.i64(1_500_000, 2_500_000)
+		}
+		xp.Upstreams = []plan.UpstreamSpec{upSpec(r, 0, kind)}
+		xp.Net.UpLatUs = [2]int64{20, 60}
+		xp.Net.UpSegMode = 0
+		p.Knobs.StallProb = 0
+		total := window*r.rng(1, 2) + r.rng(1, 6)
+		if kind == "udp" {
+			total = window + r.rng(1, 6)
+		}
+		gap := (slow - 60_000) / int64(total)
+		for i := 0; i <= total; i++ {
+			tok := fmt.Sprintf("t%d", i)
+			c := plan.XCall{Idx: i, Up: 0, AtUs: 1000 + int64(i)*gap, ID: uint16(r.u64()), Token: tok, Type: 1, DeadlineUs: 6_000_000}
+			t := &plan.TokenSpec{Ans: plan.AnswerSpec{NAn: 1, TTLs: []uint32{300}, Shape: "plain"}, Acts: []plan.UpAction{{Kind: "reply", DelayUs: r.i64(50, 300)}}}
+			switch {
+			case i == 0:
+				t.Acts[0].DelayUs = slow
+			case i%window == 0:
+				// waits across the instant the slow reply arrives
+				t.Acts[0].DelayUs = slow - int64(i)*gap + r.i64(20_000, 150_000)
+			}
+			xp.Tokens[tok] = t
+			xp.Calls = append(xp.Calls, c)
+		}
+		xp.HorizonUs = slow + 10_000_000
+		return p
+	}
 	nu := r.rng(1, 2)
 	for i := 0; i < nu; i++ {
 		xp.Upstreams = append(xp.Upstreams, upSpec(r, i, kinds[r.intn(len(kinds))]))
